@@ -15,33 +15,40 @@ CONSTANTS MaxItems, Mode
 ASSUME MetaLiteralsOK /\ Bijection
 
 Names == { Codes("a-1"), Codes("a-b-1.0nb2"), Codes("x-"), Codes("-1"), Codes("py39-foo-2"), Codes("a-2") }
-FileSets == { {}, {3}, {4, 6}, {3, 4}, {3, 6}, {3, 4, 6}, {3, 4, 6, 1, 14}, {1, 2, 5} }
+\* <<files present, those of them that are zero-length>>
+FileSets == { <<{}, {}>>, <<{3}, {}>>, <<{4, 6}, {}>>, <<{3, 4}, {}>>, <<{3, 6}, {}>>, <<{3, 4, 6}, {}>>, <<{3, 4, 6, 1, 14}, {}>>,
+              <<{1, 2, 5}, {}>>, <<{3, 4, 6}, {4}>>, <<{3, 4, 6, 13}, {3, 4, 6, 13}>> }
 Values == { <<>>, <<120>>, <<SP, 120, NL>>, <<97, NL, 98, NL>>, <<52, 50>>, <<SP, DASH, 55, NL>>, <<120, 49>> }
 
-VARIABLES cfg, st, hist, n
-Init == cfg = <<>> /\ st = MetaInit /\ hist = <<>> /\ n = 0
+VARIABLES cfg, st, hist, n, root
+Init == cfg = <<>> /\ st = MetaInit /\ hist = <<>> /\ n = 0 /\ root \in (IF Mode = "db" THEN {"dir", "file", "missing"} ELSE {"dir"})
+\* one of the names may be non-UTF-8 on disk ("a-2" + 0xFF)
 AddEntry == \E nm \in Names, d \in BOOLEAN, fs \in FileSets :
+              /\ root = "dir"
               /\ \A i \in 1..Len(cfg) : cfg[i].name # nm
-              /\ cfg' = Append(cfg, [name |-> nm, dir |-> d, files |-> IF d THEN fs ELSE {}])
+              /\ cfg' = Append(cfg, [name |-> nm, dir |-> d, files |-> IF d THEN fs[1] ELSE {}, empty |-> IF d THEN fs[2] ELSE {},
+                                     utf8 |-> nm # Codes("a-2")])
 \* each entry is read at most once in an emitted history (whether a second read appends or
 \* replaces is not fixed by C20; the machine appends, as the code does)
 Call == \E i \in {j \in 1..NM : \A h \in 1..Len(hist) : hist[h].e # j}, v \in Values :
           LET r == ReadMetadata(st, i, v) IN
           /\ st' = r[1]
           /\ hist' = Append(hist, [e |-> i, v |-> v, ret |-> r[2], st |-> r[1], valid |-> IF IsValid(r[1]) THEN "T" ELSE "F"])
-Next == /\ n < MaxItems /\ n' = n + 1
+Next == /\ n < MaxItems /\ n' = n + 1 /\ UNCHANGED root
         /\ IF Mode = "db" THEN AddEntry /\ UNCHANGED <<st, hist>> ELSE Call /\ UNCHANGED cfg
-View == <<cfg, st, n>>
+View == <<cfg, st, n, root>>
 
-EachOnce == Mode = "db" => Cardinality(Listed(cfg)) = Cardinality({i \in 1..Len(cfg) : ValidPkg(cfg[i])})
+EachOnce == Mode = "db" => Cardinality(Listed(cfg)) + ItemErrors(cfg) = Cardinality({i \in 1..Len(cfg) : ValidPkg(cfg[i])})
 SplitOK  == Mode = "db" => \A r \in Listed(cfg) : HasDash(r.pkgname) => r.base \o <<DASH>> \o r.version = r.pkgname
 ValidRule == IsValid(st) = (st[3] # <<>> /\ st[4] # <<>> /\ st[6] # <<>>)
 
 Emit == IF Mode = "db"
         THEN PrintT(<<"CASE", ToJson([op |-> "pkgdb",
-                        in |-> [entries |-> [i \in 1..Len(cfg) |-> [name |-> cfg[i].name, dir |-> IF cfg[i].dir THEN "T" ELSE "F",
-                                                                       files |-> SetToSeq(cfg[i].files)]]],
-                        out |-> [listed |-> SetToSeq(Listed(cfg))]])>>)
+                        in |-> [root |-> root,
+                                entries |-> [i \in 1..Len(cfg) |-> [name |-> cfg[i].name, dir |-> IF cfg[i].dir THEN "T" ELSE "F",
+                                                                       files |-> SetToSeq(cfg[i].files), empty |-> SetToSeq(cfg[i].empty),
+                                                                       raw |-> IF cfg[i].utf8 THEN "F" ELSE "T"]]],
+                        out |-> [open |-> OpenOutcome(root), listed |-> SetToSeq(DbListed(root, cfg)), errors |-> DbErrors(root, cfg)]])>>)
         ELSE n = MaxItems => PrintT(<<"CASE", ToJson([op |-> "metahist",
                         in |-> [calls |-> [i \in 1..Len(hist) |-> <<hist[i].e, hist[i].v>>]],
                         out |-> [steps |-> [i \in 1..Len(hist) |-> [ret |-> hist[i].ret, st |-> hist[i].st, valid |-> hist[i].valid]]]])>>)
